@@ -189,6 +189,8 @@ class Selector(object):
         """
         if 'schema' not in kwargs:
             kwargs['schema'] = self.parser.schema
+        if 'namespaces' not in kwargs:
+            kwargs['namespaces'] = self.parser.namespaces
         if 'variables' not in kwargs and self._variables:
             kwargs['variables'] = self._variables
 
@@ -207,6 +209,8 @@ class Selector(object):
         """
         if 'schema' not in kwargs:
             kwargs['schema'] = self.parser.schema
+        if 'namespaces' not in kwargs:
+            kwargs['namespaces'] = self.parser.namespaces
         if 'variables' not in kwargs and self._variables:
             kwargs['variables'] = self._variables
 
